@@ -4302,3 +4302,9 @@ E("EQ-C15-hash-before-write", WRITER,
   """        Entry::Clear { keyspace_id }.encode_into(&mut self.buf)?;
         hasher.update(&self.buf);
         self.file.write_all(&self.buf)?;""", props=["C15", "C03", "C02", "C13"])
+B("SWP-C02-one-item-batch-taken-for-empty", "C02", "C02:R-C02.19:batch::WriteBatch::is_empty:empty-means-no-items", BATCH,
+  "        self.len() == 0", "        self.len() == 1")
+B("SWP-C08-commit-shortcut-inverted", "C08", "C08:R-C08.14:batch::WriteBatch::commit:nothing-to-do-only-for-an-empty-batch", BATCH,
+  "        if self.is_empty() {\n            // NOTE: Even without items", "        if !self.is_empty() {\n            // NOTE: Even without items")
+E("EQ-C02-is-empty-through-the-vec", BATCH,
+  "        self.len() == 0", "        self.data.is_empty()", props=["C02", "C08", "C03"])
